@@ -5,11 +5,11 @@ package protobuf
 
 //@ // generated protobuf plumbing: the reflective view of a message (frame only)
 //@ func (x *FlowType1) ProtoReflect() (r)
-//@   ensures nn: !isnil(r)
+//@   ensures nn: !isnil(r) && r.(*FlowType1) == x
 //@   noeffect
 //@   trusted
 //@
 //@ func (x *FlowType2) ProtoReflect() (r)
-//@   ensures nn: !isnil(r)
+//@   ensures nn: !isnil(r) && r.(*FlowType2) == x
 //@   noeffect
 //@   trusted
